@@ -389,7 +389,7 @@ def conformance(verbose=True):
         same = []
         results = {}
         for profile_name, kn in (('linux', {'rst_after_close': 1, 'rst_keeps_data': 1}), ('quiet', {'rst_after_close': 0, 'rst_keeps_data': 0})):
-            for rtt in (2, 200):
+            for rtt in (2, 80, 120, 200):
                 plan = gen.client_plan(1, opts + ['-c', '-p', str(real['port'])], sc['profile'], port=real['port'], faults=sc['faults'], net={'rtt_us': rtt},
                                        knobs=dict(cpu_cost=[20, 60], **kn))
                 plan['world']['clients'][0]['name'] = 'conformance'
@@ -420,7 +420,7 @@ def conformance(verbose=True):
         target = '127.0.0.1:%d' % real['port']
         results = {}
         for profile_name, kn in (('linux', {'rst_after_close': 1, 'rst_keeps_data': 1}), ('quiet', {'rst_after_close': 0, 'rst_keeps_data': 0})):
-            for rtt in (2, 200):
+            for rtt in (2, 80, 120, 200):
                 # loopback latency is a few microseconds, far below the time the tool needs between two calls; which of a FIN and the
                 # reset that follows it the tool meets first is a race in the real world, so a second latency is tried as well
                 plan = gen.server_plan(1, opts + [target], sc['profile'], host='loopback.sim', ip='127.0.0.1', port=real['port'], faults=sc['faults'],
